@@ -1,19 +1,34 @@
-"""P part shared by C10 / C12: cencoding.write_thrift per value kind at the byte level + to_bytes capacity."""
+"""P part shared by C10 / C12: cencoding.write_thrift / write_list / read_thrift / read_list per value kind at the byte level,
+read_unsigned_var_int's callee contract, to_bytes capacity."""
 import concurrent.futures as cf
 import multiprocessing as mp
 import re
 
-from contracts import c10_thrift, cy
+from contracts import c10_thrift, c10_read, cy
 from vlib.common import PROVED, REFUTED, UNKNOWN
 
-KNOWN = {"C10": [("C10-P-to-bytes-capacity", re.compile(r"^to_bytes\.capacity"))],
+KNOWN = {"C10": [("C10-P-to-bytes-capacity", re.compile(r"^to_bytes\.capacity")),
+                 ("C10-P-i8-parsed-unsigned", re.compile(r"^read_thrift\.value\[i8\]$"))],
          "C12": [("C12-P-to-bytes-capacity", re.compile(r"^to_bytes\.capacity"))]}
 
 
 def _task(t):
     kind, timeout = t
     try:
-        res = c10_thrift.write_thrift_kind(kind, timeout) if kind != "to_bytes" else c10_thrift.to_bytes_capacity(timeout)
+        if kind == "to_bytes":
+            res = c10_thrift.to_bytes_capacity(timeout)
+        elif kind == "varint_lemma":
+            res = c10_read.varint_lemma(timeout)
+        elif kind.startswith("r:"):
+            res = c10_read.read_thrift_kind(kind[2:], timeout)
+        elif kind.startswith("rl:"):
+            _, a, b = kind.split(":")
+            res = c10_read.read_list_kind(a, b, timeout)
+        elif kind.startswith("wl:"):
+            _, a, b = kind.split(":")
+            res = c10_read.write_list_kind(a, b, timeout)
+        else:
+            res = c10_thrift.write_thrift_kind(kind, timeout)
         return (kind, res.order, res.d, res.kind, None)
     except Exception as ex:
         import traceback
@@ -21,17 +36,26 @@ def _task(t):
 
 
 def p_thrift(ctx):
-    cy.register(ctx, ["write_thrift", "ThriftObject.to_bytes", "encode_unsigned_varint", "long_zigzag", "NumpyIO.write_byte",
+    cy.register(ctx, ["write_thrift", "write_list", "read_thrift", "read_list", "ThriftObject.to_bytes", "encode_unsigned_varint",
+                      "read_unsigned_var_int", "long_zigzag", "zigzag_long", "NumpyIO.write_byte", "NumpyIO.read_byte", "NumpyIO.seek",
                       "NumpyIO.get_pointer"])
+    for a in c10_read.ASSUMED:
+        if a not in ctx.assumptions:
+            ctx.assumptions.append(a)
     timeout = 30000 if ctx.tier == "quick" else 120000
-    tasks = [(k, timeout) for k in c10_thrift.KINDS] + [("to_bytes", timeout)]
-    with cf.ProcessPoolExecutor(max_workers=10, mp_context=mp.get_context("fork")) as ex:
+    tasks = [(k, timeout) for k in c10_thrift.KINDS] + [("to_bytes", timeout), ("varint_lemma", timeout)]
+    tasks += [("r:" + k, timeout) for k in c10_read.RKINDS]
+    tasks += [(f"rl:{a}:{b}", timeout) for a, b in c10_read.LKINDS]
+    tasks += [(f"wl:{a}:{b}", timeout) for a, b in c10_read.WLKINDS]
+    with cf.ProcessPoolExecutor(max_workers=14, mp_context=mp.get_context("fork")) as ex:
         results = list(ex.map(_task, tasks))
     want = "safety" if ctx.prop == "C12" else None
     for kind, order, d, kinds, err in results:
         if err:
-            ctx.obligation(f"write_thrift[{kind}].out_of_reach", "cencoding.write_thrift", "unknown", "engine", 0.0, detail=err, sample=True)
+            ctx.obligation(f"thrift[{kind}].out_of_reach", "cencoding.write_thrift", "unknown", "engine", 0.0, detail=err, sample=True)
             continue
+        fn = "cencoding." + ("read_thrift" if kind.startswith("r:") else "read_list" if kind.startswith("rl:") else "write_list"
+                             if kind.startswith("wl:") else "read_unsigned_var_int" if kind == "varint_lemma" else "write_thrift")
         for name in order:
             k = kinds.get(name, "functional")
             if want == "safety" and k != "safety":
@@ -44,11 +68,12 @@ def p_thrift(ctx):
             e = next((x for x in entries if x[0] == st), entries[0])
             fid = next((f for f, rx in KNOWN.get(ctx.prop, []) if rx.search(name)), None)
             if st == REFUTED and fid and ctx.is_known(fid):
-                ctx.obligation(name, "cencoding.ThriftObject.to_bytes", "refuted-known", e[3], e[2], detail=e[4], model=e[1], sample=True)
+                ctx.obligation(name, "cencoding.ThriftObject.to_bytes" if name.startswith("to_bytes") else fn, "refuted-known", e[3], e[2],
+                               detail=e[4], model=e[1], sample=True)
                 ctx.known_finding(fid)
                 continue
-            ctx.obligation(name, "cencoding.write_thrift", st, e[3], sum(x[2] for x in entries), detail=e[4],
+            ctx.obligation(name, fn, st, e[3], sum(x[2] for x in entries), detail=e[4],
                            model=e[1] if st == REFUTED else None, sample=True)
             if st == REFUTED:
-                ctx.violation(name, {"function": "cencoding.write_thrift", "model": e[1], "solver_output": str(e[1])[:600], "snippet": None},
+                ctx.violation(name, {"function": fn, "model": e[1], "solver_output": str(e[1])[:600], "snippet": None},
                               False, what=(e[4] or "")[:200])
